@@ -1783,7 +1783,8 @@ func (cr *clRun) settle() {
 		}
 	}
 	// C03 bounded liveness: with a quorum and no faults the next write succeeds
-	if rw >= cr.quorum() && cr.lockFree() {
+	for attempt := 0; attempt < 3 && rw >= cr.quorum() && cr.lockFree(); attempt++ {
+		sig0 := cr.membershipSig()
 		i := len(cr.s.Ops) + 1000 + len(cr.ios)
 		cr.issueIO(i, Op{K: "w", A: 0, B: 8})
 		if !cr.pump(120*time.Second, cr.idle) {
@@ -1791,10 +1792,22 @@ func (cr *clRun) settle() {
 			return
 		}
 		o := cr.ios[len(cr.ios)-1]
-		if !o.ok() && !o.feDown {
+		if o.ok() || o.feDown {
+			break
+		}
+		if sig0 == cr.membershipSig() {
 			cr.viol("C03", "write-refused-with-quorum-after-settle", "after faults stopped and membership settled (%v, %d RW, RF=%d) a write failed: %v", list, rw, c.rf, o.err)
 			return
 		}
+		// membership had NOT settled: a replica process was still reacting to a fault from before (it exits a
+		// second after a failed add, say) and left while the write was under way. Wait for the membership to
+		// settle again and try once more.
+		cr.res.stat("liveness_write_retried_membership_changed", 1)
+		if !cr.pump(900*time.Second, func() bool { return cr.allRW() && cr.idle() }) || cr.stopped() {
+			break
+		}
+		list = c.ctrl.ListReplicas()
+		rw = countMode(list, types.RW)
 	}
 	if cr.stopped() {
 		return
@@ -1854,6 +1867,17 @@ func (cr *clRun) settle() {
 		}
 	}
 	cr.pump(time.Millisecond, nil)
+}
+
+// membershipSig: the controller's list plus, per replica process, how often it has been started and
+// whether it is running - equal before and after an operation means nobody joined, left, died or came back.
+func (cr *clRun) membershipSig() string {
+	s := fmt.Sprint(cr.c.ctrl.ListReplicas())
+	for _, rn := range cr.c.reps {
+		exited := rn.node != nil && rn.node.Exited
+		s += fmt.Sprintf("|%s:%d:%v:%v", rn.name, rn.starts, rn.up, exited)
+	}
+	return s
 }
 
 var _ = sort.Strings
